@@ -390,3 +390,64 @@ Definition ideal_wf (q s : Z) (i : ideal) : bool :=
   | ISign _ n coord => (coord <? n)%nat
   end.
 
+
+(* ------------------------------------------------------------------------------------------------ *)
+(* chains/btc/executor/executor.go  watchExecution: between the signing results and the broadcast.
+   One FROST signing process per transaction input puts Signature{Id, Signature} on the shared
+   channel (nil values are skipped); the executor stores it in signatures[Id] and sends the
+   transaction as soon as signaturesFilled says every slot is non-empty - with whatever the slots
+   hold at that moment.  A result is [None] (a nil value) or [Some id] (what the signing process of
+   input id releases: a BIP-340 signature over THAT input's signature hash - so it is valid in slot
+   i iff id = i; that the released signature is valid is the subject of sign_ok).  The same input
+   can deliver more than once (a retried batch runs every process again) and in any order.       *)
+Local Close Scope Z_scope.
+
+Inductive wres :=
+| WWaiting                              (* not every slot filled: nothing is sent (it keeps waiting
+                                           until its context ends or the signing timeout strikes) *)
+| WSent (witness : list (option nat))   (* SendRawTransaction with these per-input signatures *)
+| WPanic.                               (* signatures[Id] with Id out of range *)
+
+Fixpoint set_slot (i : nat) (v : option nat) (l : list (option nat)) {struct l} : option (list (option nat)) :=
+  match l, i with
+  | [], _ => None
+  | _ :: r, O => Some (v :: r)
+  | x :: r, S j => match set_slot j v r with Some r' => Some (x :: r') | None => None end
+  end.
+
+Definition slot_filled (s : option nat) : bool := match s with Some _ => true | None => false end.
+
+Fixpoint btc_watch (slots : list (option nat)) (rs : list (option nat)) : wres :=
+  match rs with
+  | [] => WWaiting
+  | None :: r => btc_watch slots r
+  | Some id :: r =>
+      match set_slot id (Some id) slots with
+      | None => WPanic
+      | Some slots' => if forallb slot_filled slots' then WSent slots' else btc_watch slots' r
+      end
+  end.
+
+Definition btc_watch_tx (n : nat) (rs : list (option nat)) : wres := btc_watch (repeat None n) rs.
+
+(* slot i carries a valid signature for input i *)
+Definition slot_valid (i : nat) (s : option nat) : bool :=
+  match s with Some id => Nat.eqb id i | None => false end.
+
+Fixpoint slots_valid_from (i : nat) (l : list (option nat)) : list bool :=
+  match l with [] => [] | s :: r => slot_valid i s :: slots_valid_from (S i) r end.
+
+(* THE JUDGE of what the executor handed to the node: [sent] transactions were broadcast,
+   valids[i] = the witness of input i verifies (btcd script engine, Taproot key path) in every one
+   of them.  Whatever is broadcast carries a valid signature on EVERY input. *)
+Definition btc_sent_ok (n sent : nat) (valids : list bool) : bool :=
+  match sent with
+  | O => true
+  | _ => Nat.eqb (length valids) n && forallb (fun b => b) valids
+  end.
+
+Definition results_in_range (n : nat) (rs : list (option nat)) : bool :=
+  forallb (fun r => match r with Some id => Nat.ltb id n | None => true end) rs.
+
+Definition input_delivered (i : nat) (rs : list (option nat)) : bool :=
+  existsb (fun r => match r with Some id => Nat.eqb id i | None => false end) rs.
